@@ -652,6 +652,27 @@ class Interp:
             st.unknown.append((name, loc))
 
 
+def role_of(body):
+    """signature role of a wrapper method (see module docstring)"""
+    sig_args = [body.locals[i + 1]["ty"] for i in range(body.arg_count)]
+    ret_ty = body.locals[0]["ty"]
+    if not sig_args or "&" not in sig_args[0]:
+        return "static"
+    cont_args = [i for i, ty in enumerate(sig_args[1:], start=2) if _is_container_ty(ty) and not ty.startswith("&")]
+    elem_args = [i for i, ty in enumerate(sig_args[1:], start=2) if ty == "T"]
+    if cont_args and _is_container_ty(ret_ty):
+        return "attach+detach"
+    if cont_args and ret_ty == "()":
+        return "attach"
+    if _is_container_ty(ret_ty) and len(sig_args) == 1:
+        return "detach"
+    if elem_args and ret_ty == "()":
+        return "push"
+    if re.match(r"^core::option::Option<T>$", ret_ty) and len(sig_args) == 1:
+        return "pop"
+    return "other"
+
+
 def analyse_method(prog, body, adt):
     """returns dict(role, paths=[{fields, ret, stores, unknown, drops}], error=None)"""
     sig_args = [body.locals[i + 1]["ty"] for i in range(body.arg_count)]
